@@ -30,7 +30,7 @@ Section Ctor.
   Hypothesis fn_names : forall fn, In fn fns -> mf_name fn <> "".
 
   Definition pgood (ws : sset) (p : field) : Prop :=
-    f_canmap p = false /\ f_caneach p = false /\
+    f_zero p = false /\ f_canmap p = false /\ f_caneach p = false /\
     match f_target p with
     | Some fi => fi < length readers /\ f_isset (rd readers fi) = false
                  /\ can_name_match (rd readers fi) p tm ic = true
@@ -48,8 +48,9 @@ Section Ctor.
 
   Lemma pgood_mono ws x p : pgood ws p -> pgood (s_add ws x) p.
   Proof.
-    intros (A & B & C). split; auto. split; auto. destruct (f_target p); [|exact C].
-    destruct C as (c1 & c2 & c3 & c4 & c5 & c6). repeat split; auto. apply s_has_add_mono; auto.
+    intros (Z & A & B & C). split; auto. split; auto. split; auto. destruct (f_target p); [|exact C].
+    destruct C as (c1 & c2 & c3 & c4 & c5 & c6).
+    refine (conj c1 (conj c2 (conj c3 (conj _ (conj c5 c6))))). apply s_has_add_mono; auto.
   Qed.
 
   (* updating parameter k with a field that is good for the enlarged write set *)
@@ -91,12 +92,12 @@ Section Ctor.
       assert (Kg : keeps_core g) by (unfold g; apply kc_comp; [apply kc_func | apply kc_target]).
       assert (CI' : CInv params (upd ps k g, s_add ws (f_name (rd ps k)))).
       { apply cinv_upd; auto.
-        destruct CI as (_ & _ & _ & G). destruct (G k Hk) as (A & B & _).
-        unfold pgood, g. simpl. split; auto. split; auto.
-        repeat split; auto.
+        destruct CI as (_ & _ & _ & G). simpl in G. destruct (G k Hk) as (Z & A & B & _).
+        unfold pgood, g. simpl.
+        split; [exact Z|]. split; [exact A|]. split; [exact B|]. split; [exact Hfi|]. split; [exact Hset|].
+        split; [|split; [apply s_has_add_same|split]].
         - rewrite <- Hnm. apply can_name_match_core; [apply core_eq_refl|].
           apply (keeps_core_eq (fun p => set_func (mf_name fn) (set_target (Some fi) p))); auto.
-        - apply s_has_add_same.
         - unfold flagcount, has_func, b2n. simpl.
           assert (N : mf_name fn <> "") by (apply fn_names; apply Hin; left; auto).
           destruct (String.eqb_spec (mf_name fn) ""); [congruence|]. simpl.
@@ -106,13 +107,312 @@ Section Ctor.
       assert (E1 : f_ty (rd (upd ps k g) k) = f_ty (rd ps k)) by (rewrite rd_upd, Nat.eqb_refl by auto; reflexivity).
       assert (E2 : f_name (rd (upd ps k g) k) = f_name (rd ps k)) by (rewrite rd_upd, Nat.eqb_refl by auto; reflexivity).
       rewrite <- E1, <- E2.
-      apply IH; auto.
-      + intros f Hf. apply Hin. right; auto.
-      + rewrite upd_length. auto.
+      apply IH; [intros f Hf; apply Hin; right; auto | rewrite E2; exact CI' | rewrite upd_length; exact Hk | exact Hfi | exact Hset | | | ].
       + rewrite <- Hnm. apply can_name_match_core; [apply core_eq_refl|].
         rewrite rd_upd, Nat.eqb_refl by auto. apply keeps_core_eq; auto.
       + rewrite rd_upd, Nat.eqb_refl by auto. exact Ha.
       + rewrite rd_upd, Nat.eqb_refl by auto. exact Hc.
     - apply IH; auto. intros f Hf. apply Hin. right; auto.
   Qed.
+
+  Lemma ctor_step_ok params fi k ps ws :
+    CInv params (ps, ws) -> k < length ps -> fi < length readers ->
+    CInv params (ctor_step e tm ic fns readers fi k (ps, ws)).
+  Proof.
+    intros CI Hk Hfi. unfold ctor_step. simpl fst. simpl snd.
+    fold (rd readers fi). fold (rd ps k).
+    destruct (f_isset (rd readers fi)) eqn:Hset; auto.
+    destruct (can_name_match (rd readers fi) (rd ps k) tm ic) eqn:Hnm; cbn [negb]; auto.
+    destruct (s_has ws (f_name (rd ps k))) eqn:Hhas; auto.
+    (* the parameter is still free: it carries no flag and no Target *)
+    assert (G := CI). destruct G as (_ & _ & _ & G). simpl in G. destruct (G k Hk) as (Z & A & B & C).
+    destruct (f_target (rd ps k)) as [x|] eqn:T.
+    { destruct C as (_ & _ & _ & C & _). congruence. }
+    apply flag0 in C. destruct C as (z1 & z2 & z3 & z4 & z5).
+    destruct (match_type e (f_ty (rd readers fi)) (f_ty (rd ps k))) as (same, conv) eqn:M.
+    destruct same eqn:S.
+    - (* assignment *)
+      simpl. rewrite <- (upd_length ps k set_canassign) in Hk.
+      assert (X : upd (upd ps k set_canassign) k (set_target (Some fi)) = upd ps k (fun p => set_target (Some fi) (set_canassign p))).
+      { clear. revert k. induction ps as [|p ps IH]; intros [|k]; simpl; auto. f_equal. apply IH. }
+      rewrite X. rewrite upd_length in Hk.
+      apply cinv_upd; auto. { apply kc_comp; [apply kc_target | apply kc_canassign]. }
+      unfold pgood. simpl. split; [exact Z|]. split; [exact A|]. split; [exact B|]. split; [exact Hfi|]. split; [exact Hset|].
+      split; [|split; [apply s_has_add_same|split]].
+      + rewrite <- Hnm. apply can_name_match_core; [apply core_eq_refl|].
+        apply (keeps_core_eq (fun p => set_target (Some fi) (set_canassign p))). apply kc_comp; [apply kc_target | apply kc_canassign].
+      + unfold flagcount, b2n. simpl. lia.
+      + unfold just, has_func in *. simpl. simpl in z3. rewrite z2, z3, z4, z5.
+        repeat split; try discriminate. intros _. rewrite <- (match_type_same _ _ _ _ _ M). reflexivity.
+    - destruct conv eqn:Cv.
+      + (* conversion *)
+        simpl.
+        assert (X : upd (upd ps k (set_isconv (f_ty (rd ps k)))) k (set_target (Some fi))
+                    = upd ps k (fun p => set_target (Some fi) (set_isconv (f_ty (rd ps k)) p))).
+        { clear. generalize (f_ty (rd ps k)). intros t. revert k. induction ps as [|p ps IH]; intros [|k]; simpl; auto. f_equal. apply IH. }
+        rewrite X.
+        apply cinv_upd; auto. { apply kc_comp; [apply kc_target | apply kc_isconv]. }
+        unfold pgood. simpl. split; [exact Z|]. split; [exact A|]. split; [exact B|]. split; [exact Hfi|]. split; [exact Hset|].
+        split; [|split; [apply s_has_add_same|split]].
+        * rewrite <- Hnm. apply can_name_match_core; [apply core_eq_refl|].
+          apply (keeps_core_eq (fun p => set_target (Some fi) (set_isconv (f_ty (rd ps k)) p))). apply kc_comp; [apply kc_target | apply kc_isconv].
+        * unfold flagcount, b2n. simpl. lia.
+        * unfold just, has_func in *. simpl. simpl in z3. rewrite z1, z3, z4, z5.
+          destruct (match_type_conv _ _ _ _ _ M eq_refl eq_refl) as (a & b & c).
+          repeat split; try discriminate; auto.
+      + (* neither: the mapper methods *)
+        simpl. apply ctor_func_loop_ok; auto.
+  Qed.
+
+  Lemma ctor_fold_ok params : forall (fis : list nat) ps ws,
+    CInv params (ps, ws) -> (forall fi, In fi fis -> fi < length readers) -> length ps = length params ->
+    CInv params (fold_left (fun acc fi => fold_left (fun acc k => ctor_step e tm ic fns readers fi k acc)
+                                                    (seq 0 (length params)) acc) fis (ps, ws)).
+  Proof.
+    assert (Inner : forall (ks : list nat) fi acc, CInv params acc -> fi < length readers ->
+              (forall k, In k ks -> k < length params) ->
+              CInv params (fold_left (fun acc k => ctor_step e tm ic fns readers fi k acc) ks acc)).
+    { induction ks as [|k ks IH]; intros fi [ps ws] CI Hfi Hks; simpl; auto.
+      apply IH; auto.
+      - apply ctor_step_ok; auto. destruct CI as (L & _). simpl in L. rewrite L. apply Hks. left; auto.
+      - intros j Hj. apply Hks. right; auto. }
+    induction fis as [|fi fis IH]; intros ps ws CI Hfis L; simpl; auto.
+    assert (C1 : CInv params (fold_left (fun acc k => ctor_step e tm ic fns readers fi k acc) (seq 0 (length params)) (ps, ws))).
+    { apply Inner; auto. { apply Hfis. left; auto. } intros k Hk. apply in_seq in Hk. lia. }
+    destruct (fold_left (fun acc k => ctor_step e tm ic fns readers fi k acc) (seq 0 (length params)) (ps, ws)) as (ps1, ws1) eqn:E.
+    apply IH; auto.
+    - intros j Hj. apply Hfis. right; auto.
+    - destruct C1 as (L1 & _). exact L1.
+  Qed.
 End Ctor.
+
+(* ------------------------------------------------- makeCtorMatch as a whole *)
+Definition pfinal (e : env) (tm : tagmap) (ic : bool) (fns : list mfunc) (readers : list field) (ws : sset) (p : field) : Prop :=
+  f_canmap p = false /\ f_caneach p = false /\
+  match f_target p with
+  | Some fi => f_zero p = false /\ fi < length readers /\ f_isset (rd readers fi) = false
+               /\ can_name_match (rd readers fi) p tm ic = true
+               /\ s_has ws (f_name p) = true /\ 1 <= flagcount p
+               /\ just e fns true (rd readers fi) p
+  | None => f_zero p = true
+  end.
+
+Lemma nth_map_dflt {A B} (f : A -> B) (l : list A) (d : A) (d' : B) k : k < length l -> nth k (map f l) d' = f (nth k l d).
+Proof. revert k. induction l as [|x l IH]; intros [|k] H; simpl in *; try lia; auto. apply IH. lia. Qed.
+
+Lemma make_ctor_match_ok e tm ic fns readers params ws ps' ws' h :
+  (forall fn, In fn fns -> mf_name fn <> "") ->
+  (forall p, In p params -> fresh p /\ f_zero p = false /\ f_canmap p = false /\ f_caneach p = false) ->
+  make_ctor_match e tm ic fns readers params ws = (ps', ws', h) ->
+  length ps' = length params
+  /\ (forall j, j < length ps' -> core_eq (rd params j) (rd ps' j))
+  /\ (forall x, s_has ws x = true -> s_has ws' x = true)
+  /\ (params <> [] -> forall j, j < length ps' -> pfinal e tm ic fns readers ws' (rd ps' j)).
+Proof.
+  intros FN FR H. unfold make_ctor_match in H.
+  destruct params as [|p0 params0] eqn:EP.
+  { inversion H; subst. split; [reflexivity|]. split; [intros; apply core_eq_refl|]. split; [auto|congruence]. }
+  rewrite <- EP in *.
+  assert (NE : params <> []) by (rewrite EP; discriminate).
+  assert (C0 : CInv e tm ic fns readers ws params (params, ws)).
+  { unfold CInv. simpl. split; auto. split; [intros; apply core_eq_refl|]. split; auto.
+    intros j Hj. destruct (FR (rd params j)) as ((F1 & F2) & F3 & F4 & F5). { apply nth_In; auto. }
+    unfold pgood. rewrite F2. auto. }
+  pose proof (ctor_fold_ok e tm ic fns readers ws FN params (seq 0 (length readers)) params ws C0) as CF.
+  match type of H with (let '(_, _) := ?F in _) = _ => destruct F as (ps, ws1) eqn:EF end.
+  assert (CI : CInv e tm ic fns readers ws params (ps, ws1)).
+  { apply CF; auto. intros fi Hfi. apply in_seq in Hfi. lia. }
+  clear CF EF. inversion H; subst ps' ws' h; clear H.
+  destruct CI as (L & C & M & G). simpl in *.
+  split; [rewrite map_length; auto|]. split; [|split; [exact M|]].
+  - intros j Hj. rewrite map_length in Hj. unfold rd. rewrite (nth_map_dflt _ ps fdummy) by auto.
+    fold (rd ps j). eapply core_eq_trans; [apply C|].
+    destruct (f_target (rd ps j)); [apply core_eq_refl | repeat split].
+  - intros _ j Hj. rewrite map_length in Hj. unfold rd. rewrite (nth_map_dflt _ ps fdummy) by auto.
+    fold (rd ps j). destruct (G j Hj) as (Z & A & B & D). unfold pfinal.
+    destruct (f_target (rd ps j)) as [fi|] eqn:T.
+    + rewrite T. destruct D as (d1 & d2 & d3 & d4 & d5 & d6). auto 10.
+    + simpl. rewrite T. auto.
+Qed.
+
+(* ------------------------------------------------------------- on [analyse] *)
+Definition fn_names_ok (jb : job) : Prop := forall fn, In fn (j_funcs jb) -> mf_name fn <> "".
+
+Lemma ctor_field_fresh c : fresh (ctor_field c) /\ f_zero (ctor_field c) = false
+                           /\ f_canmap (ctor_field c) = false /\ f_caneach (ctor_field c) = false.
+Proof. repeat split; reflexivity. Qed.
+
+Lemma prepare_ctor jb pr :
+  prepare jb = Some pr -> fn_names_ok jb ->
+  (forall j, j < length (pr_dctor pr) ->
+     core_eq (rd (map ctor_field (j_dst_ctor jb)) j) (rd (pr_dctor pr) j)
+     /\ (j_dst_ctor jb <> [] ->
+         pfinal (j_env jb) (p_tags (pr_src pr)) (j_ic jb) (j_funcs jb) (s_src (pr_s0 pr)) (s_wdst (pr_s0 pr)) (rd (pr_dctor pr) j)))
+  /\ length (pr_dctor pr) = length (j_dst_ctor jb)
+  /\ (forall j, j < length (pr_sctor pr) ->
+     j_src_ctor jb <> [] ->
+     pfinal (j_env jb) [] (j_ic jb) (j_funcs jb) (s_dst (pr_s0 pr)) (s_wsrc (pr_s0 pr)) (rd (pr_sctor pr) j)).
+Proof.
+  unfold prepare. intros H FN.
+  destruct (parse_fields (j_env jb) (j_fuel jb) PSrc (j_src jb) true) as [ps|]; [|discriminate].
+  destruct (parse_fields (j_env jb) (j_fuel jb) PDst (j_dst jb) false) as [pd|]; [|discriminate].
+  destruct (make_ctor_match _ _ _ _ _ (map ctor_field (j_dst_ctor jb)) _) as [[dctor wdst1] use_d] eqn:MD.
+  destruct (make_ctor_match _ _ _ _ _ (map ctor_field (j_src_ctor jb)) _) as [[sctor wsrc1] use_s] eqn:MS.
+  inversion H; subst; clear H. simpl.
+  assert (FR : forall cs p, In p (map ctor_field cs) -> fresh p /\ f_zero p = false /\ f_canmap p = false /\ f_caneach p = false).
+  { intros cs p I. apply in_map_iff in I. destruct I as (c & <- & _). apply ctor_field_fresh. }
+  destruct (make_ctor_match_ok _ _ _ _ _ _ _ _ _ _ FN (FR _) MD) as (L1 & C1 & _ & P1).
+  destruct (make_ctor_match_ok _ _ _ _ _ _ _ _ _ _ FN (FR _) MS) as (L2 & C2 & _ & P2).
+  split; [|split].
+  - intros j Hj. split; [apply C1; auto|]. intros NE. apply P1; auto.
+    intros E. apply NE. destruct (j_dst_ctor jb); auto. discriminate.
+  - rewrite L1, map_length. reflexivity.
+  - intros j Hj NE. apply P2; auto. intros E. apply NE. destruct (j_src_ctor jb); auto. discriminate.
+Qed.
+
+(* no statement writes a name that the constructor call (or a manual method) covers *)
+Theorem analyse_ctor_disjoint sigma jb a pr :
+  analyse sigma jb = Some a -> prepare jb = Some pr -> acc_guard jb -> fn_names_ok jb ->
+  (forall st, In st (pl_stmts (a_to a)) -> s_has (s_wdst (pr_s0 pr)) (r_name (st_dst st)) = false)
+  /\ (forall st, In st (pl_stmts (a_from a)) -> s_has (s_wsrc (pr_s0 pr)) (r_name (st_dst st)) = false)
+  /\ (forall p, In p (pr_dctor pr) -> f_target p <> None -> s_has (s_wdst (pr_s0 pr)) (f_name p) = true)
+  /\ (forall p, In p (pr_sctor pr) -> f_target p <> None -> s_has (s_wsrc (pr_s0 pr)) (f_name p) = true).
+Proof.
+  intros H P G FN. destruct (analyse_inv _ _ _ _ H P G) as (I & _).
+  destruct (analyse_stmts _ _ _ H) as ((sp & n1 & E1) & (dp & n2 & E2)).
+  destruct (prepare_ctor _ _ P FN) as (PD & LD & PS).
+  split; [|split; [|split]].
+  - intros st Hst. rewrite E1 in Hst. eapply to_stmts_fresh; eauto.
+  - intros st Hst. rewrite E2 in Hst. eapply from_stmts_fresh; eauto.
+  - intros p Ip T. destruct (In_nth _ _ fdummy Ip) as (k & Hk & <-).
+    destruct (PD k Hk) as (_ & PF).
+    assert (NE : j_dst_ctor jb <> []) by (intros E; rewrite LD, E in Hk; simpl in Hk; lia).
+    specialize (PF NE). unfold pfinal, rd in PF. destruct PF as (_ & _ & PF).
+    destruct (f_target (nth k (pr_dctor pr) fdummy)); [|congruence]. tauto.
+  - intros p Ip T. destruct (In_nth _ _ fdummy Ip) as (k & Hk & <-).
+    assert (NE : j_src_ctor jb <> []).
+    { intros E. unfold prepare in P.
+      destruct (parse_fields (j_env jb) (j_fuel jb) PSrc (j_src jb) true); [|discriminate].
+      destruct (parse_fields (j_env jb) (j_fuel jb) PDst (j_dst jb) false); [|discriminate].
+      rewrite E in P. simpl in P.
+      destruct (make_ctor_match _ _ _ _ _ (map ctor_field (j_dst_ctor jb)) _) as [[? ?] ?].
+      inversion P; subst. simpl in Hk. lia. }
+    specialize (PS k Hk NE). unfold pfinal, rd in PS. destruct PS as (_ & _ & PS).
+    destruct (f_target (nth k (pr_sctor pr) fdummy)); [|congruence]. tauto.
+Qed.
+
+Lemma Forall2_nth_intro {A B} (R : A -> B -> Prop) (l1 : list A) (l2 : list B) d1 d2 :
+  length l1 = length l2 -> (forall k, k < length l1 -> R (nth k l1 d1) (nth k l2 d2)) -> Forall2 R l1 l2.
+Proof.
+  revert l2. induction l1 as [|x l1 IH]; intros [|y l2] L H; simpl in *; try lia; constructor.
+  - apply (H 0). lia.
+  - apply IH; [lia|]. intros k Hk. apply (H (S k)). lia.
+Qed.
+
+Lemma flat_map_pointwise {A B} (F : A -> list B) (Q : nat -> B -> Prop) d : forall (l : list A) (off : nat),
+  (forall k, k < length l -> exists x, F (nth k l d) = [x] /\ Q (off + k) x) ->
+  exists xs, flat_map F l = xs /\ length xs = length l /\ forall k dx, k < length l -> Q (off + k) (nth k xs dx).
+Proof.
+  induction l as [|a l IH]; intros off H; simpl.
+  - exists []. repeat split; auto. intros k dx Hk. simpl in Hk. lia.
+  - destruct (H 0) as (x & Fx & Qx); [simpl; lia|]. simpl in Fx. rewrite Nat.add_0_r in Qx.
+    destruct (IH (S off)) as (xs & E & L & Qs).
+    { intros k Hk. destruct (H (S k)) as (y & Fy & Qy); [simpl; lia|]. exists y. split; auto.
+      replace (S off + k) with (off + S k) by lia. auto. }
+    exists (x :: xs). rewrite Fx, E. simpl. repeat split; auto.
+    intros [|k] dx Hk; simpl.
+    + rewrite Nat.add_0_r. auto.
+    + replace (off + S k) with (S off + k) by lia. apply Qs. simpl in Hk. lia.
+Qed.
+
+Lemma map_eq_nth {A B C} (f : A -> C) (g : B -> C) (xs : list A) (ys : list B) dx dy :
+  length xs = length ys -> (forall k, k < length xs -> f (nth k xs dx) = g (nth k ys dy)) -> map f xs = map g ys.
+Proof.
+  revert ys. induction xs as [|x xs IH]; intros [|y ys] L H; simpl in *; try lia; auto.
+  f_equal. { apply (H 0). lia. } apply IH; [lia|]. intros k Hk. apply (H (S k)). lia.
+Qed.
+
+Definition cdummy : cparam := {| cp_field := ""; cp_path := []; cp_ty := TBasic BBool |}.
+
+(* the argument list of the constructor call in ToX *)
+Theorem analyse_ctor_args_to sigma jb a args :
+  analyse sigma jb = Some a -> acc_guard jb -> fn_names_ok jb -> pl_ctor (a_to a) = Some args ->
+  map fst args = map cp_path (j_dst_ctor jb)
+  /\ Forall2 (fun arg c =>
+       snd arg = CZero (cp_ty c)
+       \/ exists sf h, snd arg = CVal (ref_of sf) h /\ In sf (s_src (a_state a)) /\ f_isset sf = false
+                       /\ can_name_match sf (ctor_field c) (p_tags (a_src_parsed a)) (j_ic jb) = true
+                       /\ ctor_applicable (j_env jb) (j_funcs jb) (f_ty sf) (cp_ty c) h)
+     args (j_dst_ctor jb).
+Proof.
+  intros H G FN PC. destruct (analyse_state _ _ _ H) as (pr & P & S & T).
+  destruct (prepare_ctor _ _ P FN) as (PD & LD & _).
+  assert (EA : args = ctor_args true (pr_dctor pr) (s_src (a_state a)) /\ pr_use_d pr = true).
+  { unfold analyse in H. rewrite P in H. inversion H; subst a; clear H. simpl in PC.
+    destruct (pr_use_d pr); inversion PC. auto. }
+  destruct EA as (-> & UD).
+  assert (NE : j_dst_ctor jb <> []).
+  { intros E. unfold prepare in P.
+    destruct (parse_fields (j_env jb) (j_fuel jb) PSrc (j_src jb) true); [|discriminate].
+    destruct (parse_fields (j_env jb) (j_fuel jb) PDst (j_dst jb) false); [|discriminate].
+    rewrite E in P. simpl in P.
+    destruct (make_ctor_match _ _ _ _ _ (map ctor_field (j_src_ctor jb)) _) as [[? ?] ?].
+    inversion P; subst. simpl in UD. discriminate. }
+  destruct (prepare_ok _ _ P G) as (I0 & _).
+  destruct (passes_ok _ _ _ _ _ _ _ I0) as (_ & CR).
+  fold (run_passes (j_env jb) (p_tags (pr_src pr)) (j_ic jb) (j_funcs jb) (pr_s0 pr)) in CR. rewrite <- S in CR.
+  destruct CR as (Ls & _ & Cs & _). rewrite T.
+  set (s2 := a_state a) in *.
+  set (Q := fun (k : nat) (x : path * carg) =>
+              let c := nth k (j_dst_ctor jb) cdummy in
+              fst x = cp_path c /\
+              (snd x = CZero (cp_ty c)
+               \/ exists sf h, snd x = CVal (ref_of sf) h /\ In sf (s_src s2) /\ f_isset sf = false
+                               /\ can_name_match sf (ctor_field c) (p_tags (pr_src pr)) (j_ic jb) = true
+                               /\ ctor_applicable (j_env jb) (j_funcs jb) (f_ty sf) (cp_ty c) h)).
+  unfold ctor_args.
+  match goal with |- context [flat_map ?F (pr_dctor pr)] => set (FF := F) end.
+  destruct (flat_map_pointwise FF Q fdummy (pr_dctor pr) 0) as (xs & E & L & Qs).
+  { intros k Hk. simpl. destruct (PD k Hk) as (CE & PF). specialize (PF NE).
+    unfold rd in CE, PF. rewrite (nth_map_dflt ctor_field (j_dst_ctor jb) cdummy fdummy k) in CE by (rewrite <- LD; exact Hk).
+    set (c := nth k (j_dst_ctor jb) cdummy) in *. set (p := nth k (pr_dctor pr) fdummy) in *.
+    destruct CE as (cn & ct & cg & cs & cb & cp). simpl in ct, cp.
+    assert (CEq : core_eq (ctor_field c) p) by (repeat split; auto).
+    unfold pfinal in PF. destruct PF as (A & B & PF). unfold FF, Q. fold c.
+    destruct (f_target p) as [fi|] eqn:Tg.
+    - destruct PF as (Z & Hfi & Hset & Hnm & _ & FC & (J1 & J2 & J3 & _)). rewrite Z.
+      fold (rd (s_src (pr_s0 pr)) fi) in *.
+      set (r0 := rd (s_src (pr_s0 pr)) fi) in *. set (r := nth fi (s_src s2) fdummy).
+      assert (CRr : core_eq r0 r) by (apply (Cs fi)).
+      assert (Tr : f_ty r = f_ty r0) by (destruct CRr as (_ & X & _); exact X).
+      assert (Common : In r (s_src s2) /\ f_isset r = false
+                       /\ can_name_match r (ctor_field c) (p_tags (pr_src pr)) (j_ic jb) = true).
+      { split; [apply nth_In; rewrite Ls; exact Hfi|]. split.
+        - destruct CRr as (_ & _ & _ & X & _). rewrite X. exact Hset.
+        - rewrite <- Hnm. apply can_name_match_core.
+          + destruct CRr as (a1&a2&a3&a4&a5&a6). repeat split; congruence.
+          + destruct CEq as (a1&a2&a3&a4&a5&a6). repeat split; congruence. }
+      unfold flagcount, has_func, b2n in FC. rewrite A, B in FC.
+      destruct (negb (String.eqb (f_func p) "")) eqn:Fn.
+      + eexists. split.
+        { rewrite <- map_rev, !rev_app_distr. simpl. reflexivity. }
+        simpl. split; [congruence|]. right. exists r, (SFunc (f_func p)). split; auto.
+        destruct Common as (c1 & c2 & c3). repeat split; auto.
+        simpl. destruct (J3 Fn) as (fn & I1 & I2 & I3 & I4). exists fn. rewrite Tr, <- ct. auto.
+      + rewrite app_nil_r. destruct (f_isconv p) eqn:Cv.
+        * eexists. split. { rewrite <- map_rev, !rev_app_distr. simpl. reflexivity. }
+          simpl. split; [congruence|]. right.
+          destruct (J2 eq_refl) as (j1 & j2 & j3 & j4). rewrite j4.
+          exists r, (SConv (f_ty r) (f_ty p)). split; auto.
+          destruct Common as (c1 & c2 & c3). repeat split; auto; rewrite ?Tr, <- ?ct; auto.
+        * destruct (f_canassign p) eqn:Ca; [|simpl in FC; lia].
+          eexists. split; [simpl; reflexivity|]. simpl. split; [congruence|]. right.
+          exists r, SAssign. split; auto. destruct Common as (c1 & c2 & c3). repeat split; auto.
+          simpl. rewrite Tr, <- ct. auto.
+    - rewrite PF. eexists. split; [reflexivity|]. simpl. split; [congruence|]. left. rewrite ct. reflexivity. }
+  rewrite E. simpl in Qs. split.
+  - apply (map_eq_nth fst cp_path xs (j_dst_ctor jb) (([] : path), CZero (TBasic BBool)) cdummy); [lia|].
+    intros k Hk. destruct (Qs k (([] : path), CZero (TBasic BBool))) as (X & _); [lia|]. exact X.
+  - apply (Forall2_nth_intro _ xs (j_dst_ctor jb) (([] : path), CZero (TBasic BBool)) cdummy); [lia|].
+    intros k Hk. destruct (Qs k (([] : path), CZero (TBasic BBool))) as (_ & X); [lia|]. exact X.
+Qed.
